@@ -172,6 +172,8 @@ type TmplIn struct {
 	PodReqs       []KeyExprs `json:"podReqs"`   // extra narrowing added by the scheduler (pod requirements on the same keys)
 	NumTypes      int        `json:"numTypes"`  // instance-type options
 	Static        bool       `json:"static"`
+	// template metadata.annotations (not validated by karpenter): may shadow the computed hash annotations
+	Annotations []KV `json:"annotations"`
 }
 
 var customKeys = []string{"team", "example.com/tier", "tenant"}
@@ -202,6 +204,18 @@ func genTmpl(r *rand.Rand, t core.Tier) any {
 	if r.Float64() < 0.5 && len(in.Reqs) > 0 {
 		k := in.Reqs[r.IntN(len(in.Reqs))].Key
 		in.PodReqs = append(in.PodReqs, KeyExprs{Key: k, Exprs: genValidatedExprs(r)[:1]})
+	}
+	if r.Float64() < 0.3 {
+		in.Annotations = append(in.Annotations, KV{K: "example.com/note", V: "x"})
+		if r.Float64() < 0.6 {
+			in.Annotations = append(in.Annotations, KV{K: v1.NodePoolHashAnnotationKey, V: "1234567890"})
+		}
+		if r.Float64() < 0.6 {
+			in.Annotations = append(in.Annotations, KV{K: v1.NodePoolHashVersionAnnotationKey, V: "v2"})
+		}
+	}
+	if in.Annotations == nil {
+		in.Annotations = []KV{}
 	}
 	if in.Labels == nil {
 		in.Labels = []KV{}
@@ -248,6 +262,12 @@ func implTmpl(raw json.RawMessage) (any, error) {
 	np.Spec.Template.Labels = map[string]string{}
 	for _, kv := range in.Labels {
 		np.Spec.Template.Labels[kv.K] = kv.V
+	}
+	if len(in.Annotations) > 0 {
+		np.Spec.Template.Annotations = map[string]string{}
+		for _, kv := range in.Annotations {
+			np.Spec.Template.Annotations[kv.K] = kv.V
+		}
 	}
 	np.Spec.Template.Spec.Taints = toTaints(in.Taints)
 	np.Spec.Template.Spec.StartupTaints = toTaints(in.StartupTaints)
